@@ -38,12 +38,13 @@ EXTENDS Integers, Sequences, FiniteSets, TLC, Json
 
 CONSTANTS Agent,      \* set of agent names
           Links,      \* potential links: set of two-element sets of agents
-          InitUp,     \* links connected initially (no replay is modelled for them)
-          Exit,       \* agents that originate exit routes (the others announce only their presence)
-          RouteIds,   \* exit route ids every Exit agent originates, subset of {"r1","r2","r3","r4"}
+          InitUps,    \* alternatives for the set of links connected initially (no replay is modelled for them)
+          Exits,      \* alternatives for the set of agents that originate exit routes (the others announce only
+                      \* their presence)
+          RouteIds,   \* exit route ids every exit agent originates, subset of {"r1","r2","r3"}
+          HopsSet,    \* alternatives for routing.max_hops (the same at every agent)
           Announcers, \* agents that may announce
           MaxAnn,     \* announcements per announcer
-          MaxHops,    \* routing.max_hops
           CntMod,     \* modulus of the route-count field
           MaxConn, MaxDisc, MaxExpire, MaxDup, MaxAge,  \* budgets of the environment actions
           Dev, Emit
@@ -51,7 +52,9 @@ CONSTANTS Agent,      \* set of agent names
 DevNames == {"DevForwardKeepsReceivedMetric", "DevReplayUsesOwnSequence", "DevNoHopCheck", "DevCount8Wrap",
              "DevNoSeenMark", "DevForwardLooped", "DevNoPathPrepend"}
 
-ASSUME /\ Dev \subseteq DevNames /\ InitUp \subseteq Links /\ Exit \subseteq Agent /\ Announcers \subseteq Agent
+ASSUME /\ Dev \subseteq DevNames /\ Announcers \subseteq Agent
+       /\ \A u \in InitUps : u \subseteq Links
+       /\ \A x \in Exits : x \subseteq Agent
        /\ \A l \in Links : l \subseteq Agent /\ Cardinality(l) = 2
        /\ CntMod >= 2
 
@@ -103,9 +106,10 @@ RECURSIVE ReachFrom(_)
 ReachFrom(S) == LET S2 == S \cup {q \in Agent : \E x \in S : {x, q} \in up} IN IF S2 = S THEN S ELSE ReachFrom(S2)
 
 Init ==
-  /\ up = InitUp /\ pend = {} /\ gone = {}
-  /\ cfg = [loc |-> [a \in Agent |-> IF a \in Exit THEN RouteIds ELSE {}], hops |-> [a \in Agent |-> MaxHops]]
-  /\ ctr = [a \in Agent |-> IF a \in Exit THEN Cardinality(RouteIds) ELSE 0]   \* AddLocal*Route bumps it once per route
+  /\ up \in InitUps /\ pend = {} /\ gone = {}
+  /\ \E x \in Exits, h \in HopsSet :
+       /\ cfg = [loc |-> [a \in Agent |-> IF a \in x THEN RouteIds ELSE {}], hops |-> [a \in Agent |-> h]]
+       /\ ctr = [a \in Agent |-> IF a \in x THEN Cardinality(RouteIds) ELSE 0]   \* AddLocal*Route bumps it once per route
   /\ seen = [a \in Agent |-> {}]
   /\ tbl = [a \in Agent |-> {}]
   /\ net = EmptyBag
@@ -364,7 +368,7 @@ TypeOK ==
 ProcessedOnce == ~viol.pr
 ForwardedOnce == ~viol.fw
 \* C11 -- hence at most one frame per direction of every link (no expiry: MaxExpire = 0 or none used yet)
-MsgBound == bud.exp = 0 => \A k \in DOMAIN sent : sent[k] <= 2 * Cardinality(Links)
+MsgBound == bud.exp = 0 /\ bud.disc = 0 => \A k \in DOMAIN sent : sent[k] <= 2 * Cardinality(up)
 \* C11 -- always, also across expiry and replays: stored paths are simple and do not contain the storing agent
 PathsSimple == \A a \in Agent : \A e \in tbl[a] : NoDup(e.path) /\ a \notin SeqToSet(e.path)
 \* C11 -- termination: the seen-by list of every frame is duplicate-free and a forward strictly extends it, so
@@ -409,7 +413,8 @@ DecodedIntact == ~viol.c06
 
 (* ---- edge emission ---------------------------------------------------------*)
 Proj(s_up, s_pend, s_gone, s_ctr, s_seen, s_tbl, s_net) ==
-  [up |-> s_up, pend |-> s_pend, gone |-> s_gone, ctr |-> s_ctr, seen |-> s_seen, tbl |-> s_tbl,
+  [loc |-> cfg.loc, hops |-> cfg.hops,
+   up |-> s_up, pend |-> s_pend, gone |-> s_gone, ctr |-> s_ctr, seen |-> s_seen, tbl |-> s_tbl,
    net |-> {[m |-> x, n |-> s_net[x]] : x \in DOMAIN s_net}]
 EmitEdge ==
   Emit => PrintT("EDGE " \o ToJson([s |-> Proj(up, pend, gone, ctr, seen, tbl, net), a |-> last',
